@@ -336,7 +336,8 @@ Print Assumptions C07_loader_is_an_admissible_order.
    ====================================================================================================== *)
 (* for EVERY entity declaration: the expansion returns components or one of the walker's two errors, and the
    converter neither panics on them nor produces a file that fails to link (Entity.v has no
-   query.listRequest: that construct panics — recorded finding, C07_service_refuted) *)
+   query.listRequest: since fix 985f10a that construct is a positioned error, not a panic - recorded finding
+   'listRequest not accepted', C07_service_refuted) *)
 Theorem C07_entity_total_links : forall e,
   match compile_entity e with
   | Ok v => v <> VPanic /\ v <> VLinkErr
